@@ -334,5 +334,14 @@ Ltac hole_step :=
   | H : tr ?cfg ?m ?t ?m' |- context [run ?cfg (?m2, ?st) ?t] =>
     let E := fresh "Ehole" in assert (E : run cfg (m2, st) t = (m', st)) by exact (H st); rewrite E; clear E
   end.
-Ltac walk := repeat first [ rewrite run_app | hole_step | lit_step ].
+(* a literal character in front of a hole (after cbn turned  lit ".." ++ x  into conses) *)
+Ltac cons_step :=
+  match goal with
+  | |- context [run ?cfg (?m, ?st) (?c :: ?t)] =>
+    let r := eval vm_compute in (c10_lex_step cfg (m, st) c) in
+    match r with
+    | (_, _) => change (run cfg (m, st) (c :: t)) with (run cfg r t)
+    end
+  end.
+Ltac walk := repeat first [ rewrite run_app | hole_step | lit_step | cons_step ].
 Ltac split_ifs := repeat match goal with |- context [if ?b then _ else _] => destruct b end.
